@@ -1,15 +1,19 @@
 """C04 - flush, shutdown and handle drop leave no accepted record behind."""
 import gen_lg as gl
 
-CLAIM = ("Decided per explored history: a Logger is built for each write mode (Direct, BufferDontFlush(c), BufferAndFlush(c, 20 ms), "
-         "Async with and without flusher) and output (file, file with size rotation, stdout, stderr); records are logged, and at every "
-         "checkpoint - flush() in a synchronous mode, shutdown(), the last handle dropped - the output is read at once (no sleep) and "
-         "must hold every record whose log call had returned (oracle on the implementation); cloning handles and dropping clones in "
-         "between must change nothing. The model (file-writer state machine, incl. the buffer, shutdown and the asynchronous message "
-         "channel) predicts the same directories (correspondence). Proved in Coq: after OFlush / OShutdown / OStop the model's writer "
-         "has nothing pending and the directory holds everything written (Numbers naming: C04_stop_durable, from the "
-         "C01 invariant). Partial: real flusher-thread timing and WriteMode::SupportCapture are only sampled.")
-THEOREMS = ["C04_stop_durable"]
+CLAIM = ('Decided per explored history: a Logger is built for each write mode (Direct, BufferDontFlush(c), BufferAndFlush(c, 20 '
+         'ms), Async with and without flusher) and output (file, file with size rotation, stdout, stderr); records are logged, '
+         'and at every checkpoint - flush() in a synchronous mode, shutdown(), the last handle dropped - the output is read at '
+         'once (no sleep) and must hold every record whose log call had returned (oracle on the implementation); cloning handles '
+         'and dropping clones in between must change nothing. The model (file-writer state machine, incl. the buffer, shutdown '
+         'and the asynchronous message channel) predicts the same directories (correspondence). Proved in Coq: after OFlush / '
+         "OShutdown / OStop the model's writer has nothing pending and the directory holds everything written (Numbers naming: "
+         'C04_stop_durable, from the C01 invariant). Partial: real flusher-thread timing and WriteMode::SupportCapture are only '
+         'sampled. Also proved: after flush in Direct / buffered mode and - once the flush message has been consumed - in '
+         'asynchronous mode, and after stop in asynchronous mode, nothing is pending and the directory holds everything written '
+         "(C04_flush_durable_sync, C04_flush_durable_async, C04_stop_durable_async); and, outside the property's scope: a record "
+         'logged after shutdown() in asynchronous mode is accepted and lost (C04_async_dead_write_lost). ')
+THEOREMS = ["C04_stop_durable", "C04_flush_durable_async", "C04_stop_durable_async", "C04_flush_durable_sync", "C04_async_dead_write_lost"]
 TRUSTED = ["modelled, not verified: BufWriter::flush, the async writer thread joins on shutdown, stdout/stderr buffering of the std writers"]
 ASSUMPTIONS = ["after shutdown() no further records are logged in the generated histories",
                "in asynchronous mode flush() only sends a request: no checkpoint is placed after it"]
